@@ -2,25 +2,25 @@
 """Regenerates /verif/MANIFEST.json from the table below and validates it."""
 import json, os, sys
 HERE = os.path.dirname(os.path.dirname(os.path.abspath(__file__)))
-TRUST = "reference oracles of DESIGN §5/§8 (bit-wise CRC, canon, monitor, independent SML reader, ideal vector) bound to the repository's golden vectors at start-up; harness catch_unwind/allocator plumbing; rustc; 64-bit host with features std+alloc+nb"
+TRUST = "reference oracles of DESIGN §5/§8 (bit-wise CRC, canon, monitor, independent SML reader, ideal vector) bound to the repository's golden vectors at start-up; harness catch_unwind/allocator plumbing; rustc; 64-bit host with features std+alloc+nb+embedded-hal-02 (C11 additionally on the default feature set)"
 # id -> (engine, category, technique, text, design_ref, note)
 C = {}
 def add(i, engine, cat, tech, text, ref, note=TRUST):
     C[i] = dict(engine=engine, cat=cat, tech=tech, text=text, ref=ref, note=note)
 
 add("C01", "E2", "model_checking", "bounded exhaustive enumeration of payloads x encoders x decoder front-ends x capacities on the real code against a spec-level encoder",
-    "every payload over {00,01,1a,1b,55} up to length 9 (quick) / 12 (thorough), every payload length 10..1100 / ..4200 with five fillers, every byte value in short payloads, and filler x boundary-length x tail payloads around 2^8, 2^10, 2^13, 2^16 is framed by the reference encoder and by both real encoders and decoded by all seven front-ends (and Decoder::from_buf with a used buffer) with growable, exact-capacity and next-larger fixed buffers; exactly one result, the payload, at the frame's last byte", "§6 C01")
+    "every payload over {00,01,1a,1b,55} up to length 9 (quick) / 11 (thorough), every payload length 10..1100 / ..2600 with five fillers, every byte value in short payloads, and filler x boundary-length x tail payloads around 2^8, 2^10, 2^13, 2^16 is framed by the reference encoder and by both real encoders and decoded by all front-ends (push decoder, decode, decode_streaming, SmlReader over slice / iterators / io::Read shapes / embedded-hal serial, Decoder::from_buf with a used buffer) with growable, exact-capacity and next-larger fixed buffers; exactly one result, the payload, at the frame's last byte", "§6 C01")
 add("C07", "E2", "model_checking", "bounded exhaustive enumeration of payloads x both encoders x every fixed capacity around the frame length against a spec-level encoder",
-    "same payload space (length 10 quick / 13 thorough); both encoders must equal the spec-level frame byte for byte, the iterator must stay ended (3 further polls for every payload, 66000 for a sample), and encode::<ArrayBuf<N>> must fail exactly when N < frame length (every N for short payloads)", "§6 C07")
+    "same payload space (length 10 quick / 12 thorough); both encoders must equal the spec-level frame byte for byte, the iterator must stay ended (3 further polls for every payload, 66000 for a sample), encode::<ArrayBuf<N>> must fail exactly when N < frame length (every N in 0..=340 is instantiated: every N for short payloads, F-2..F+1 otherwise), and encode::<Vec> must answer OutOfMemory (not abort) when the heap refuses to grow the buffer (child process)", "§6 C07")
 add("C16", "E2", "model_checking", "bounded exhaustive enumeration of payload x capacity x follow-up frame on the real decoder under the receiver monitor",
     "every payload up to length 8 (quick) / 10 (thorough) x every capacity 0..|p|+1 x three follow-up frames through every front-end with that static buffer, plus the 8 KiB default buffer at 8191/8192/8193 bytes; N>=|p| must deliver at the last byte, N<|p| must give OutOfMemory, never a payload, and the follow-up frame must be delivered", "§6 C16")
 
 add("C02", "E1", "model_checking", "explicit-state BFS over the product (real Decoder state x receiver monitor) with state-adaptive checksum symbols and exact-state dedup",
-    "all operation strings over 6 byte classes + state-adaptive CRC bytes + macro symbols + finalize/reset up to depth 6 (quick, 1.4e7 states) / 7 (thorough, 2e8 states) from new() and new()+start sequence and six stale-state roots, Vec and tiny fixed buffers (explored deeper), a wide-alphabet run and multi-frame streams; on every Ok(m) the raw bytes since the start sequence must equal the spec-level frame of m", "§6 C02")
+    "all operation strings over 6 byte classes + state-adaptive CRC bytes + macro symbols + finalize/reset up to depth 6 (quick, 1.4e7 states) / 7 (thorough, 2e8 states) from new() and new()+start sequence and six stale-state roots, Vec and tiny fixed buffers (explored deeper), a wide-alphabet run, multi-frame streams and frames with a foreign escape sequence 1b1b1b1b k a b c spliced in for all 256 k; on every Ok(m) the raw bytes since the start sequence must equal the spec-level frame of m", "§6 C02")
 add("C05", "E1", "model_checking", "explicit-state BFS of the real Decoder with all operations incl. finalize/reset over 8 buffer kinds, plus stateless enumeration of short paths containing long-run symbols (254..65537 bytes)",
-    "every interleaving of push_byte/finalize/reset up to depth 6/8 (Vec) and 5/7 (ArrayBuf<0,1,2,3,4,5,8>) with overflow checks on; every path of length <=4/5 containing one run of 254..65537 identical bytes (thorough: also 2^32+-k); encoders and all front-ends on payloads beyond 2^16; oracle: no panic, no hang, errors as values and the object stays usable (exploration continues from every error state)", "§6 C05")
+    "every interleaving of push_byte/finalize/reset up to depth 6/8 (Vec) and 5/7 (ArrayBuf<0,1,2,3,4,5,8>) with overflow checks on; every path of length <=4/5 containing one run of 254..65537 identical bytes (thorough: also 2^32+-k, and a transmission in progress of 2^32+5 bytes on a growable buffer); encoders and all front-ends on payloads beyond 2^16; allocation failure behind a Vec buffer in four child-process scenarios; oracle: no panic, no hang, errors as values and the object stays usable (exploration continues from every error state)", "§6 C05")
 add("C08", "E1", "model_checking", "explicit-state BFS of the idle phase over all noise strings (merged by state) + exhaustive directed enumeration history x noise x frame and cut-off frames",
-    "(a) every noise string over the 6 byte classes up to length 24/40 from 9-10 idle histories, merged by (decoder snapshot, scanner state, count): the discarded report must come exactly at the byte completing the first start sequence and the decoder must then behave as new()+start; (b) 11 idle histories x every admissible noise string up to length 5/7 x 31 payloads through all front-ends; (c) every payload up to length 5/7 cut at every neutral offset followed by a frame, also with every capacity 0..6", "§6 C08")
+    "(a) every noise string over the 6 byte classes up to length 24/40 (and over 12 further byte values up to length 10/12) from 9-10 idle histories, merged by (decoder snapshot, scanner state, count): the discarded report must come exactly at the byte completing the first start sequence and the decoder must then behave as new()+start; (b) 11 idle histories x every admissible noise string up to length 5/7 x 31 payloads through all front-ends; (c) every payload up to length 5/7 cut at every neutral offset followed by a frame, also with every capacity 0..6", "§6 C08")
 add("C14", "E1", "model_checking", "explicit-state BFS collecting every distinct boundary state, then exhaustive lock-step differential continuation of each against a new decoder",
     "every distinct full decoder snapshot reached right after Ok/InvalidMessage/InvalidEsc/OutOfMemory/reset/finalize within depth 6/7 (1.3e5 boundary states over 8 buffer kinds in quick) x every continuation of <=2/3 symbols over 23 symbols incl. whole frames and pad-lying frames, CRC bytes adapted to either side: outputs must be identical call by call; branches are closed only on full state equality; plus the concatenation corollary on multi-frame streams at every transmission boundary", "§6 C14")
 add("C17", "E1", "model_checking", "explicit-state BFS of the real Decoder under the byte-accounting monitor, plus long-run paths (and, thorough, the same in a build without overflow checks)",
@@ -28,26 +28,26 @@ add("C17", "E1", "model_checking", "explicit-state BFS of the real Decoder under
 
 E4T = "grammar-directed exhaustive input enumeration through both real parsers against an independent SML reader"
 add("C03", "E4", "model_checking", E4T + " and an all-valid-encodings generator",
-    "full product of list-entry fields (names, status classes, times, units, scalers, every value type / width class / leading-byte pattern, signatures; thinned 1/7 in quick) and of message-level optional masks x list lengths {0,1,2,14..17,255,256} x 1-3 message files, each in every valid encoding with <=1 (quick) / <=2-3 (thorough) non-default choices (integer widths, non-minimal and 8-byte TLFs, time workaround, 1-byte checksum); both parsers must return exactly the abstract content; reader(encode(F))==F is asserted on every input", "§6 C03")
+    "full product of list-entry fields (names, status classes, times, units, scalers, every value type / width class / leading-byte pattern, signatures; thinned 1/7 in quick) and of message-level optional masks x list lengths {0,1,2,14..17,255,256} x 1-3 message files, each in every valid encoding with <=1 (quick) / <=2-3 (thorough) non-default choices (integer widths, non-minimal and 8-byte TLFs, time workaround, 1-byte checksum); plus each of the 13 byte-string fields with every length 0..300 and around 2^12, 2^16 (data present), plus the derived families (mutations, splices, TLF replacements) wherever the independent reader accepts; both parsers must return exactly the abstract content; reader(encode(F))==F is asserted on every input", "§6 C03")
 add("C04", "E4", "model_checking", E4T,
     "every byte string up to 3 (quick) / 4 (thorough) bytes, every string over 16 structural bytes up to 5/7; for ~60 seed files (all constructs + real meter payloads): every truncation, every one-byte insertion/deletion/append, every single-byte substitution by every value, substitution + tail defect (and pairs from 16 structural bytes, thorough), every checksum field re-encoded 18 ways, every splice prefix(A)+suffix(B), every TLF position replaced by every type x 19 declared lengths; each as is and with the checksums repaired; parsers must accept exactly when the independent reader accepts and return equal content", "§6 C04")
 add("C06", "E4", "model_checking", E4T + " under a counting global allocator",
-    "all inputs of the C04 families plus every TLF position of every seed replaced by TLFs declaring 0..2^36 and all crafted 4-72 byte and very long TLFs, over-declared lists of minimal entries; observed: panics (overflow checks on), largest single request and peak live heap inside complete::parse (<= 4096+128*|x|, calibrated on n minimal entries / k minimal messages), allocator calls inside streaming::Parser (must be 0); huge requests are served lazily from reserved address space so they are reported instead of aborting", "§6 C06")
+    "all inputs of the C04 families, the C03 entry product and the C12 type-length-field families, plus every TLF position of every seed replaced by TLFs declaring 0..2^36 and all crafted 4-72 byte and very long TLFs, over-declared lists of minimal entries; observed: panics (overflow checks on), largest single request and peak live heap inside complete::parse (<= 4096+128*|x|, calibrated on n minimal entries / k minimal messages), allocator calls inside streaming::Parser (must be 0); huge requests are served lazily from reserved address space so they are reported instead of aborting", "§6 C06")
 add("C09", "E4", "model_checking", E4T + ", comparing the two parsers with each other",
     "on every input of the generated, short-string, mutation, splice and TLF-replacement families: complete::parse vs the re-assembled streaming events - both Ok with equal files or both Err with the same kind; announced num_values = number of value events, exactly one end event, before the next message start", "§6 C09")
-add("C12", "E4", "model_checking", "exhaustive enumeration of all type-length fields of 1-2 bytes at six grammar sites (3 bytes: three sites in quick, all six in thorough) in context, crafted 4-72 byte and very long fields, and all primitive encodings, against the SML TLF rule",
-    "each TLF is placed at six grammar sites (transaction id, value list, entry value, message head, time field x2) of an otherwise valid, correctly checksummed message built under every plausible decoded length (the reference's and the wrapped / truncated / own-size-forgotten ones); integers of every width 1-9 x leading byte x fill and of absurd widths carrying their data at 12 sites, all 1- and 2-byte values, all 256 boolean bytes, octet strings of length 0..300; any Ok differing from the reference rule is the violation", "§6 C12")
+add("C12", "E4", "model_checking", "exhaustive enumeration of all type-length fields of 1-2 bytes at six grammar sites (3 bytes: three sites in quick, all six in thorough) in context, crafted 4-72 byte and very long fields, all primitive encodings and every byte-string field x length, against the SML TLF rule",
+    "each TLF is placed at six grammar sites (transaction id, value list, entry value, message head, time field x2) of an otherwise valid, correctly checksummed message built under every plausible decoded length (the reference's and the wrapped / truncated / own-size-forgotten ones); integers of every width 1-9 x leading byte x fill and of absurd widths carrying their data at 12 sites, all 1- and 2-byte values, all 256 boolean bytes, octet strings of length 0..300 at the value site and of every length 0..300, 4093..4097, 65533..65537, 100000 (thorough: ..1100, 2^20, 2^24) at each of the 13 string fields with the data present; any Ok differing from the reference rule is the violation", "§6 C12")
 add("C13", "E4", "model_checking", E4T + ", checking the iterator protocol",
     "on every input of the C09 families: at most |x|+1 items, and after the first Err or None four further next() calls return None (hard call limit so a repeating error is reported, not looped on)", "§6 C13")
 
 add("C10", "E3", "model_checking", "exhaustive enumeration of file sequences x noise placements x sources x buffers x per-call target-type/read-next choices on the real SmlReader against the abstract files put in",
     "file sequences of <=2 (quick) / <=3 (thorough) over 5 generated SML files + 1 non-SML payload, all 8^(k+1) noise placements (noise ending in 0x1b, partial start/end sequences), 5 sources x 4 buffer kinds, uniform and alternating choices of DecodedBytes/File/Parser x read/next/read_nb/next_nb for every layout and the full 6^(k+2) choice tree for three layouts per sequence; oracle: the abstract files in order, noise only as counts, None exactly at the end, and equality with decode+parse composed by hand", "§6 C10")
 add("C11", "E3", "fault_enumeration", "stateless deviation-bounded exploration of byte-source answers: every placement of <=k faults at the read() choice points of a controlled io::Read",
-    "choice point = every io::Read::read call of the real reader; deviations WouldBlock / Interrupted / Other / BrokenPipe / premature persistent EOF; every schedule with <=3 (quick) / <=4 (thorough) deviations on 9 streams, io::Read and embedded-hal sources, placing a fault in every decoder phase, drivers next/read/next_nb/read_nb, run to completion; oracle: reference reader (would-block surfaces once with 0 and changes nothing, interrupted invisible, other error carries the exact pending count and continues like a fresh reader on the rest, EOF -> None iff nothing pending, persistently)", "§6 C11")
+    "choice point = every io::Read::read call of the real reader; deviations WouldBlock / Interrupted (single and a burst of 300) / Other / BrokenPipe / TimedOut / Err(UnexpectedEof) / premature persistent EOF, and in single-deviation schedules every stable io::ErrorKind and every errno 1..=133; every schedule with <=3 (quick) / <=4 (thorough) deviations on 9 streams, io::Read and embedded-hal sources, placing a fault in every decoder phase, drivers next/read/next_nb/read_nb, run to completion; oracle: reference reader (would-block surfaces once with 0 and changes nothing, interrupted invisible, other error carries the exact pending count and continues like a fresh reader on the rest, EOF -> None iff nothing pending, persistently; the kind / value of every returned read error equals what the source raised); faults after 2^8 / 2^16 pending bytes; and the would-block / interrupted half again on sml-rs built with its default features (/verif/stdonly)", "§6 C11")
 add("C15", "E3", "model_checking", "exhaustive enumeration of symbol streams through all seven front-ends in lock step",
-    "every symbol string (6 byte classes, adaptive checksum bytes, ESC SOM TAIL0-3 TAILX) of depth <=5 (quick) / <=6 (thorough) from three roots plus framed payload families with noise and multi-frame streams (up to 300/1000 frames), through Decoder+finalize, decode, decode_streaming and SmlReader over slice / iterator (by value, by reference) / io::Cursor / one-byte io::Read with Vec, ArrayBuf<64>, ArrayBuf<2> and the default buffer; all must equal the push decoder's list, leftovers as DiscardedBytes(n) vs IoErr(Eof,n); Vec and sufficient ArrayBuf must agree", "§6 C15")
+    "every symbol string (6 byte classes, adaptive checksum bytes, ESC SOM TAIL0-3 TAILX) of depth <=5 (quick) / <=6 (thorough) from three roots plus framed payload families with noise and multi-frame streams (up to 300/1000 frames), through Decoder+finalize, decode, decode_streaming and SmlReader over slice / iterator (by value, by reference, loose size_hint) / io::Cursor / one-byte and chunked io::Read / embedded-hal serial with Vec, ArrayBuf<64>, ArrayBuf<2> and the default buffer; all must equal the push decoder's list, leftovers as DiscardedBytes(n) vs IoErr(Eof,n); Vec and sufficient ArrayBuf must agree; leftovers of 2^8..2^17 bytes at the end of input", "§6 C15")
 add("C18", "E5", "model_checking", "exhaustive enumeration of operation sequences on the real ArrayBuf<N> / Vec against an ideal bounded vector",
-    "every sequence of push / extend_from_slice(0..N+1) / truncate(0..N+1) / clear up to depth 5-7 (quick) / 7-9 (thorough) for N in {0,1,2,3,4,6} and for Vec<u8>, fresh byte values so stale storage is visible; after every step result and contents equal the ideal vector; at the end of every sequence from_iter, ==, Debug in three formats and inequality with neighbouring contents", "§6 C18")
+    "every sequence of push / extend_from_slice(0..N+1) / truncate(0..N+1) / clear up to depth 5-7 (quick) / 7-9 (thorough) for N in {0,1,2,3,4,6} and for Vec<u8>, coarse operations for N in {40,64,300} and slices of 511..65536 bytes for N in {1024,4097,8192,70000}, fresh non-periodic byte values so stale or misplaced storage is visible; after every step result and contents equal the ideal vector; at the end of every sequence from_iter through 8 iterator shapes (exact, loose and unbounded size hints, filter, chain), == both ways, Debug text (5 format specifications) equal between buffers of equal contents reached by different histories and of different capacities, and inequality with neighbouring contents", "§6 C18")
 
 PENDING = {
 }
@@ -73,7 +73,7 @@ m = {
     "setup_cmd": "./check --build",
     "hooks": {
         "guard": "cargo feature `verif-hooks` of sml-rs (off by default)",
-        "enable": "the harness crate /verif/harness depends on /repo by path with features [\"verif-hooks\", \"nb\"]; every ./check run rebuilds it from /repo's working tree",
+        "enable": "the harness crate /verif/harness depends on /repo by path with features [\"verif-hooks\", \"nb\", \"embedded-hal-02\"] (harness feature `hooks`, default on; ./check falls back to a build without verif-hooks - stateless E1 - if the hook module does not compile against the tree); every ./check run rebuilds it from /repo's working tree",
         "baseline_off_cmd": "cd /repo && cargo test --workspace --no-fail-fast --offline",
         "source_commits": [l.strip() for l in os.popen("git -C /repo log --format=%H --grep='^verif-hooks'").read().split()],
         "add_only": True,
